@@ -2,6 +2,8 @@
 //! dependency on the `jsonb` crate: it is written from README.md, the rustdoc comments,
 //! RFC 8259 and the property statements.
 pub mod gen;
+pub mod jgen;
+pub mod jpath;
 pub mod layout;
 pub mod ops;
 pub mod text;
